@@ -520,9 +520,18 @@ class BackgroundTask(threading.Thread):
         """Set a task cancellation flag."""
         self.running = False
 
-    def run(self):
-        """Start running the repeated background task in the loop."""
+    def start(self):
+        """Arm the task in the calling thread, then start the worker.
+
+        Setting the flag here rather than at the top of run() means
+        that a cancel() issued right after start() cannot be
+        overwritten by the worker's own first instruction.
+        """
         self.running = True
+        super(BackgroundTask, self).start()
+
+    def run(self):
+        """Run the repeated background task in a loop until cancelled."""
         while self.running:
             time.sleep(self.interval)
             if not self.running:
